@@ -6,7 +6,8 @@
 (* constant answers decided by the bounds of the expression and then of the slack variable, the assertion cache, the      *)
 (* fresh control variable), new_eq as the conjunction of new_geq and new_leq built by the sat core (the model of the      *)
 (* reified constructors, ReifyImpl). The network is at root level and nothing has been asserted or pivoted: bounds come   *)
-(* from set_lb / set_ub on the plain variables before the requests, so every row is a definition over plain variables.    *)
+(* from relations on the plain variables that are requested, asserted as unit clauses and propagated before the other    *)
+(* requests, so every row is a definition over plain variables.                                                          *)
 (* TLC checks, for every history of the configuration, on every point of a grid inside the current box of the plain       *)
 (* variables: a constant answer is right, a literal's assertion (slack <= / >= bound, infinitesimals included) holds       *)
 (* exactly where the requested relation does, every slack variable has the bounds and the value of its expression.        *)
@@ -108,15 +109,27 @@ LInit ==
                                                 /\ asrts = T.as /\ adefs = T.ad
   /\ reqs = {} /\ phase = "box" /\ nrel = 0
 
-\* set_lb / set_ub on the plain variables (assert_lower / assert_upper with the constant literal: the value follows)
+\* the box: for every finite bound of a plain variable the relation is requested (x >= l / x <= u), its literal is given as a
+\* unit clause and propagated: the theory asserts the bound (assert_lower / assert_upper: the value follows when it falls
+\* outside). acc = [T, S, lits]
+BoundStep(acc, x, upper, q) ==
+  LET r == Ineq(acc.T, acc.S, IF upper THEN "leq" ELSE "geq", LVar(x, One), LConst(q))
+      S1 == NewClauseS(r.S, <<r.ret>>).S
+      T1 == IF upper THEN [r.T EXCEPT !.ub[x + 1] = IROf(q), !.vl[x + 1] = IF IRGt(@, IROf(q)) THEN IROf(q) ELSE @]
+            ELSE [r.T EXCEPT !.lb[x + 1] = IROf(q), !.vl[x + 1] = IF IRLt(@, IROf(q)) THEN IROf(q) ELSE @]
+  IN [T |-> T1, S |-> S1, lits |-> Append(acc.lits, r.ret)]
+RECURSIVE BoxFrom(_, _, _)
+BoxFrom(acc, b, x) ==
+  IF x = NX THEN acc
+  ELSE LET a1 == IF IsInf(b.lb[x]) THEN acc ELSE BoundStep(acc, x, FALSE, b.lb[x])
+           a2 == IF IsInf(b.ub[x]) THEN a1 ELSE BoundStep(a1, x, TRUE, b.ub[x])
+       IN BoxFrom(a2, b, x + 1)
 SetBox(b) ==
   /\ phase = "box"
-  /\ lbs' = [i \in 1..NX |-> <<b.lb[i - 1], Zero>>]
-  /\ ubs' = [i \in 1..NX |-> <<b.ub[i - 1], Zero>>]
-  /\ vls' = [i \in 1..NX |-> IF ~IsInf(b.lb[i - 1]) /\ IsPos(b.lb[i - 1]) THEN <<b.lb[i - 1], Zero>>
-                            ELSE IF ~IsInf(b.ub[i - 1]) /\ IsNeg(b.ub[i - 1]) THEN <<b.ub[i - 1], Zero>> ELSE IRZero]
-  /\ phase' = "defs" /\ lastOp' = <<"box", b>>
-  /\ UNCHANGED <<nv, val, cls, exprs, defs, dead, calls, units, nx, rows, lexprs, asrts, adefs, reqs, nrel>>
+  /\ LET r == BoxFrom([T |-> L, S |-> St, lits |-> <<>>], b, 0)
+     IN CommitL(r.T) /\ Commit(r.S) /\ lastOp' = <<"box", b, r.lits>>
+  /\ phase' = "defs"
+  /\ UNCHANGED <<defs, dead, calls, units, reqs, nrel>>
 
 LinOfCoefs(f, k) == LMk([x \in DOMAIN f |-> RatOf(f[x])], RatOf(k))
 Def(f) ==
